@@ -13,7 +13,7 @@ import json, os, re, sys
 
 REPO = os.environ.get("VERIF_REPO", "/repo")
 HERE = os.path.dirname(os.path.abspath(__file__))
-COQ = os.path.join(os.path.dirname(HERE), "coq")
+COQ = os.environ.get("VERIF_COQ", os.path.join(os.path.dirname(HERE), "coq"))
 
 
 def read(rel):
@@ -546,6 +546,54 @@ def facts():
     decision("provider_known_ptr", P_K, "(record_eqb r ptr)", provider_k(0))
     decision("provider_known_srv", P_K, "(record_eqb r srv)", provider_k(1))
     decision("provider_known_txt", P_K, "(record_eqb r txt)", provider_k(2))
+
+    # --- browser.cpp: which records of a response the first loop of onMessageReceived keeps, and which service types
+    #     updateService ignores
+    # the build is against Qt 5: of `#if (QT_VERSION >= ...) A #else B #endif` keep B (the braces of A and B overlap)
+    browser5 = re.sub(r"#if\s*\(QT_VERSION\s*>=[^\n]*\n(.*?)#else[^\n]*\n(.*?)#endif[^\n]*\n", lambda m: m.group(2), browser, flags=re.S)
+
+    def browser_any():
+        b = func_body(browser5, r"void\s+BrowserPrivate::onMessageReceived\s*\(")
+        m = re.search(r"const\s+bool\s+any\s*=\s*([^;]+);", b)
+        if not m:
+            raise ValueError("no `const bool any = ...;`")
+        return Dec(m.group(1), merge({"type": ("type", "bstr")})).parse()
+
+    decision("browser_any", "(type : bstr)", "(bs_eqb type (Some browse_type))", browser_any)
+
+    def browser_case(label, n):
+        def g():
+            b = func_body(browser5, r"void\s+BrowserPrivate::onMessageReceived\s*\(")
+            loop = b[b.index("for"):]
+            k = re.search(r"\bcase\s+%s\s*:" % label, loop)
+            if not k:
+                raise ValueError("no case " + label)
+            seg = loop[k.end():]
+            seg = seg[:seg.index("break")]
+            cond = nth_cond(seg, "if", n)
+            v = merge(rec_vocab("record", "r"), {"any": ("any", "bool"), "type": ("type", "bstr"),
+                      'record.name().endsWith("."+type)': ("(ends_with ([DOT] ++ bs_data type) (bs_data (r_name r)))", "bool")})
+            return Dec(cond, v).parse()
+        return g
+
+    B_B = "(any : bool) (r : record) (type : bstr)"
+    decision("browser_ptr_browse", B_B, "(andb any (bs_eqb (r_name r) (Some browse_type)))", browser_case("PTR", 0))
+    decision("browser_ptr_type", B_B, "(orb any (bs_eqb (r_name r) type))", browser_case("PTR", 1))
+    decision("browser_srvtxt", B_B, "(orb any (ends_with ([DOT] ++ bs_data type) (bs_data (r_name r))))", browser_case("TXT", 0))
+
+    def browser_filter():
+        b = func_body(browser5, r"bool\s+BrowserPrivate::updateService\s*\(")
+        cond = nth_cond(b, "if", 0)
+        tail = b[b.index(cond) + len(cond):]
+        if not re.match(r"\s*\)\s*\{?\s*return\s+false\s*;", tail):
+            raise ValueError("the first if of updateService no longer returns false")
+        v = merge({"serviceType.isEmpty()": ("(match bs_data serviceType with [] => true | _ :: _ => false end)", "bool"),
+                   "serviceType": ("serviceType", "bstr"), "type": ("type", "bstr")})
+        return Dec(cond, v).parse()
+
+    decision("browser_not_of_interest", "(serviceType type : bstr)",
+             "(orb (match bs_data serviceType with [] => true | _ :: _ => false end) (andb (negb (bs_eqb type (Some browse_type))) (negb (bs_eqb serviceType type))))",
+             browser_filter)
 
     return consts, decisions, degraded
 
